@@ -12,7 +12,7 @@ use serde_json::{json, Value};
 use std::time::Duration;
 
 pub const RULE: &str = "cases = (input-free program of <= 16 commands incl. backward jumps, ♡ and exits, a cut of the command list into lines, interleaved `help`, \
-blank lines and `clear`; after `clear` the program is entered again from its first command). The reference interpreter gives the output of every entered line \
+blank lines and `clear`; after `clear` an independent program is entered; long lines with kilobytes of mixed-width output). The reference interpreter gives the output of every entered line \
 (a line's output = everything written until control passes its last command, including re-execution of commands of earlier lines after a backward jump) and of \
 the whole run; the transcript of `hyeong --color never` is cut at the prompts and the stdout/stderr text shown for each line must equal the model's, every character \
 once; the concatenation over all lines must equal the whole-run output, which is also compared with `hyeong run -O0` of the whole program; exit status 0 or the \
